@@ -33,7 +33,7 @@ func noFunctions(_ context.Context, name string, _ *fnv1.RunFunctionRequest) (*f
 	panic(explore.HarnessError{Msg: "function " + name + " called in resources mode"})
 }
 
-var composeModes = []string{"control", "required-missing", "transform-error", "combine-required-missing", "name-generation-get-error"}
+var composeModes = []string{"control", "required-missing", "transform-error", "combine-required-missing", "name-generation-get-error", "name-generation-kind-not-served"}
 
 func commonPatch() v1.Patch {
 	return v1.Patch{Type: v1.PatchTypeFromCompositeFieldPath, FromFieldPath: ptr("spec.param"), ToFieldPath: ptr("spec.param")}
@@ -139,7 +139,8 @@ func reconcilerScenario(t *testing.T, rep *report.R) report.Scenario {
 		sibling := map[string]string{"a": "b", "b": "a"}[failed]
 		fk, sk := kindOf[failed].Kind, kindOf[sibling].Kind
 		r.Logf("mode=%s failed=%s(%s) initial=%s failing-patch-position=%s", mode, failed, fk, initial, position)
-		if mode == "name-generation-get-error" && (initial == "steady" || failFirst) {
+		nameGen := mode == "name-generation-get-error" || mode == "name-generation-kind-not-served"
+		if nameGen && (initial == "steady" || failFirst) {
 			return // existing resources are never renamed, and there is no failing patch to position: not a case
 		}
 		if mode == "control" && failFirst {
@@ -207,6 +208,13 @@ func reconcilerScenario(t *testing.T, rep *report.R) report.Scenario {
 		for i := 0; i < 2; i++ {
 			logStart := len(s.Log)
 			armed = i == 0
+			if mode == "name-generation-kind-not-served" {
+				// The CRD of the failed template's kind is not installed yet:
+				// every call on that kind answers "no matches for kind". It is
+				// installed before the second reconcile.
+				s.NoMatch[kindOf[failed].GroupKind()] = i == 0
+				fired = true
+			}
 			out := w.reconcile()
 			armed = false
 			if out.Crashed != nil {
@@ -220,7 +228,7 @@ func reconcilerScenario(t *testing.T, rep *report.R) report.Scenario {
 					seqAll = append(seqAll, wr.Call.Verb+" "+wr.Call.Key.Kind)
 				}
 			}
-			failing := expectFailure && (mode != "name-generation-get-error" || i == 0)
+			failing := expectFailure && (!nameGen || i == 0)
 			rec.outcome = report.Hash(mode, initial, strings.Join(seqAll, ";"), render(xrh.Refs(s.Peek(xrh.XRKey("xr1")))))
 			if failing {
 				rec.nontrivial = report.Hash("compose", mode, failed, initial, position)
